@@ -250,6 +250,40 @@ func htmlBoundaryInputs() []string {
 				add(t)
 			}
 		}
+		// URL values in which the black word follows a failed partial match of itself, sits in the middle or at
+		// the end of the value, and scheme words followed by realistic bodies
+		for _, wd := range []string{"java", "data", "vbscript", "view-source", "javascript:", "data:", "vbscript:", "view-source:"} {
+			var vals []string
+			for p := 1; p < len(wd); p++ {
+				vals = append(vals, wd[:p]+wd, wd[:p]+wd[:p]+wd, wd[:p]+" "+wd)
+			}
+			vals = append(vals, "x"+wd, "http://x/"+wd, "http://x/meta"+wd, strings.Repeat("a", 300)+wd, wd[:len(wd)-1], wd[1:], wd+wd)
+			for _, rest := range []string{"void(0)", "void(0);alert(1)", "alert('&#8364;')", "&#256;", "//", ""} {
+				vals = append(vals, wd+rest)
+			}
+			for _, v := range vals {
+				for _, cv := range []string{v, gen.UpperASCII(v), strings.ToUpper(v[:1]) + v[1:]} {
+					add("<a href=\"" + cv + "\">")
+					add("<a href=" + cv + ">")
+					add("' src='" + cv + "' ")
+					add("<form action=" + cv + " x=y>")
+				}
+			}
+		}
+		// structural bytes written in the encodings that surround HTML in practice (URL, %u, references,
+		// JavaScript / CSS / octal escapes, UTF-7, overlong UTF-8): plain text for the library
+		evec := []string{"<script>alert(1)</script>", "<img src=x onerror=alert(1)>", "x onerror=alert(1) ", "' onclick=1 '", "\" onload=1 \"", "<a href=javascript:x>", "<style>", "{\"comment\":\"<script>\"}", "x><svg onload=1>", "<!--x--><iframe>", "style=x", "href=javascript:alert(1)"}
+		for _, v := range evec {
+			for k := 0; k < 21; k++ {
+				add(gen.Encode(v, "<", k))
+				add(gen.Encode(v, "=", k))
+				add(gen.Encode(v, "<>", k))
+				add(gen.Encode(v, "<>=", k))
+				add(gen.Encode(v, "'\"", k))
+				add(gen.Encode(v, "<>='\" /", k))
+				add("text " + gen.Encode(v, "<=", k) + " more")
+			}
+		}
 		// characters the Unicode-aware library helpers class with ASCII blanks, digits and letters, in
 		// front of, behind and in place of the blanks of short vectors (all five start contexts are judged)
 		uvec := []string{"onclick=alert(1)", "style=bold", "href=javascript:void(0)", "<script>", "<a href=javascript:x>", "<img src=x onerror=1>", "x' onclick=y ", "x\" onload=1 ", "x` style=1 ", "<!doctype html>", "<a b=c onclick=1>", "&#106;avascript:x", "<a href=&#106;avascript:x>", "plain text", "x"}
@@ -390,6 +424,8 @@ func TestC07(t *testing.T) {
 	p = c.rec.NewPart("boundary_inputs", "NUL runs of 1..100 bytes inside names; 4..6-byte comment tokens with IE/XML/IMPORT/ENTITY markers and case-folding code points; structural bytes exactly 255/256/257/512 times; total lengths 255..257 and 65535..65537; CDATA opener case variants; alias runes after names", false, true, "")
 	c.ParRange(p, int64(len(hb)), func(w *Worker, i int64) { judge(w, hb[i]) })
 
+	p = c.rec.NewPart("source_bytes", fmt.Sprintf("bytes the XSS source files write as literals and the byte-class alphabet lacks, inserted at every position of every string of 0..%d core symbols, and behind every hostile construct opener at the end of the input", 3), false, true, "")
+	c.srcByteInputs(p, extraBytes(srcDict().HTMLBytes, gen.AlphaHTML), gen.CoreHTML, 3, htmlHostile, judge)
 	p = c.rec.NewPart("source_dictionary", fmt.Sprintf("%d construct openers x every sequence of 1..4 symbols over {W} + %q (5 symbols over {W} + the first five) that contains W, for each word W (as written, upper, lower) that occurs as a literal in the XSS source files and is not a list entry", len(htmlDictOpeners), htmlDictAlpha), false, true, "")
 	c.htmlDictInputs(p, judge)
 	p = c.rec.NewPart("pass_leak_atoms_exhaustive", "every concatenation of 1..4 (thorough 5) pass-leak atoms (see C13)", false, true, "")
